@@ -67,15 +67,17 @@ def run_case(rng, tier, idx):
     c.expect('exactly symmetric', np.array_equal(blk, blk.T))
     if d['model'] != 'kpanel':
         Ko, S = oracle_k0(p, d)
-        ratio, ij = entrywise_excess(blk, Ko, S, TOL)
-        c.judge('k0 equals the energy Hessian (entry-wise)', ratio * TOL, TOL,
+        tol = TOL * gen.subinterval_amplification(d)
+        ratio, ij = entrywise_excess(blk, Ko, S, tol)
+        c.judge('k0 equals the energy Hessian (entry-wise)', ratio * tol, tol,
                 data={'entry': ij, 'code': blk[ij], 'oracle': Ko[ij], 'scale': S[ij]})
         Sref = S
     else:
         from ..oracles import conical
         Ko, S = conical.k0_oracle(p, d)
-        ratio, ij = entrywise_excess(blk, Ko, S, 1e-9)
-        c.judge('k0 (conical) equals the sectioned energy Hessian', ratio * 1e-9, 1e-9,
+        tol = 1e-9 * gen.subinterval_amplification(d)
+        ratio, ij = entrywise_excess(blk, Ko, S, tol)
+        c.judge('k0 (conical) equals the sectioned energy Hessian', ratio * tol, tol,
                 data={'entry': ij, 'code': blk[ij], 'oracle': Ko[ij], 'scale': S[ij]})
         Sref = S
     # PSD on the block
